@@ -4,4 +4,8 @@ set -eu
 cd "$(dirname "$0")"
 export CARGO_NET_OFFLINE=true
 cargo build --release --manifest-path harness/Cargo.toml --bin ohv
+cargo build --release --lib --features pyo3/extension-module \
+    --manifest-path /repo/opening-hours-py/Cargo.toml --target-dir harness/target/pyext
+mkdir -p harness/target/pyext/mod
+cp -f harness/target/pyext/release/libopening_hours.so harness/target/pyext/mod/opening_hours.so
 echo "setup done"
